@@ -589,6 +589,9 @@ SCENARIOS = {
     # a send_all queued behind a parked one is abandoned (cancelled); the stream must stay intact for later writes
     "abandoned-send": [("gate", 0), ("send", "w1", [40]), ("steps", 6), ("send", "w2", [50]), ("steps", 6), ("cancel", "w2"),
                        ("steps", 4), ("gate", 1), ("join", "w1"), ("send", "w3", [60]), ("join", "w3")],
+    # a second send_all is issued while the first one is parked by back-pressure: once both have returned, both are at the peer
+    "second-send-behind-parked-send": [("gate", 0), ("send", "w1", [40]), ("steps", 6), ("send", "w2", [50]), ("steps", 6),
+                                       ("gate", 1), ("join", "w1"), ("join", "w2")],
     # data is already in flight towards us while our own send_all is parked by back-pressure
     "backpressure-read": [("peer_write", 100), ("gate", 0), ("send", "w", [10]), ("steps", 6), ("recv", "r", 100),
                           ("join", "r"), ("gate", 1), ("join", "w")],
@@ -728,6 +731,10 @@ def run_scenario(cfg):
         got = b"".join(info["recvd"].get(k, b"") for k in ("r", "r2"))
         if got != sent[: len(got)] or not got:
             problems.append("echoed plaintext is not a prefix of the plaintext written")
+    if name == "second-send-behind-parked-send" and not problems:
+        if info["peer_got"] != info["sent"]["w1"] + info["sent"]["w2"]:
+            problems.append("send_all returned although its plaintext had not reached the peer (a send_all issued while another "
+                            "one was parked by back-pressure left its ciphertext in the outgoing BIO)")
     if name == "abandoned-send" and not problems:
         a_, b_, c_ = (info["sent"][k] for k in ("w1", "w2", "w3"))
         if peer.read_error is not None:
